@@ -34,12 +34,15 @@ where
 
     async fn read_at(&mut self, offset: u64, size: usize) -> Result<Bytes, io::Error> {
         self.0.seek(io::SeekFrom::Start(offset)).await?;
-        let mut buf = BytesMut::with_capacity(size);
+        // The size may come from an untrusted header: let the buffer grow with what is
+        // actually read instead of allocating it up front.
+        let mut buf = BytesMut::with_capacity(std::cmp::min(size, 1024 * 1024));
         while buf.len() < size {
             if self.0.read_buf(&mut buf).await? == 0 {
                 return Err(io::ErrorKind::UnexpectedEof.into());
             }
         }
+        buf.truncate(size);
         Ok(buf.freeze())
     }
 
